@@ -39,6 +39,7 @@ let run_phi () =
     | "sc" -> (phi_sc c n tau gam s0 r0 th r, dPhi_sc c n tau gam s0 r0 th dth dr)
     | "cp" -> (phi_cp c n tau gam s0 r0 th r, dPhi_cp c n tau gam s0 r0 th dth dr)
     | "ced" -> (phi_ced c n tau gam s0 r0 th r, dPhi_ced c n tau gam s0 r0 th dth dr)
+    | "ed" -> (phi_ed c n tau gam s0 r0 th r, dPhi_ed c n tau gam s0 r0 th dth dr)
     | _ -> failwith "which" in
   out ("OK " ^ pv a ^ " | " ^ pv b)
 
